@@ -242,12 +242,22 @@ def register(M):
     def range_incl(ev, fr, prog, fty, args, cx):
         return tm.adt("RangeInclusive", 0, args[0], args[1])
 
-    @reg("std::ops::RangeInclusive::<Idx>::contains")
+    @reg("std::ops::RangeInclusive::<Idx>::contains", "std::ops::RangeBounds::contains", "std::ops::Range::<Idx>::contains",
+         "std::ops::RangeFrom::<Idx>::contains", "std::ops::RangeTo::<Idx>::contains",
+         "std::ops::RangeToInclusive::<Idx>::contains")
     def range_contains(ev, fr, prog, fty, args, cx):
         r = deref_arg(ev, args[0])
         x = deref_arg(ev, args[1])
-        if r.op == "adt" and r.a[0] == "RangeInclusive":
+        if r.op == "adt" and r.a[0] == "RangeInclusive" and len(r.a) >= 4:
             return tm.and_(tm.le(r.a[2], x), tm.le(x, r.a[3]))
+        if r.op == "adt" and r.a[0] == "Range" and len(r.a) >= 4:
+            return tm.and_(tm.le(r.a[2], x), tm.lt(x, r.a[3]))        # start <= x < end
+        if r.op == "adt" and r.a[0] == "RangeFrom" and len(r.a) >= 3:
+            return tm.le(r.a[2], x)                                    # start <= x  (the start is included)
+        if r.op == "adt" and r.a[0] == "RangeTo" and len(r.a) >= 3:
+            return tm.lt(x, r.a[2])
+        if r.op == "adt" and r.a[0] == "RangeToInclusive" and len(r.a) >= 3:
+            return tm.le(x, r.a[2])
         return mk("range_contains", r, x)
 
     # ---------------------------------------------------------------- panics / exits
